@@ -93,10 +93,13 @@ structure Fixes where
   /-- recover(): a failed poll request is repeated (as in the validator loop) instead of
       abandoning the recovery -/
   pollRetry : Bool
+  /-- startTrack: once its input is closed, entries that are still incomplete are dropped (the
+      tracker returns) instead of being waited for for ever -/
+  trackDrop : Bool
 deriving DecidableEq, Repr, Inhabited
 
-def Fixes.repaired : Fixes := ⟨true, true, true, true, true⟩
-def Fixes.original : Fixes := ⟨false, false, false, false, false⟩
+def Fixes.repaired : Fixes := ⟨true, true, true, true, true, true⟩
+def Fixes.original : Fixes := ⟨false, false, false, false, false, false⟩
 
 structure Env where
   tags : List Tag
@@ -611,5 +614,10 @@ def trackRun : List TFile → List (List TPart) → List TFile × List TFile × 
       (u.1, if u.2 then a.2 ++ [p.name] else a.2)) (r.2, [])
     let r2 := trackRun step.1 rest
     (r2.1, r.1 ++ r2.2.1, step.2 ++ r2.2.2)
+
+/-- startTrack after its input was closed, given the progress entries `trackRun` leaves: as found
+    it waits for them for ever (`true`: the tracker never returns); repaired, it drops them and
+    returns (the files stay not-done in the cache). -/
+def trackStuck (fx : Fixes) (left : List TFile) : Bool := !fx.trackDrop && !left.isEmpty
 
 end Sts.Release
